@@ -239,6 +239,17 @@ def run(tier):
             n_mol += 1
             for key, msg in check_molecule(g, m, text):
                 v.violation(f"C02:{key}", msg, {"text": text})
+            if ws:
+                # the same molecule closed by a mixture specifier, blanks in front of it: same elements, plus the mixture
+                text2 = text + ws + ".|1000|"
+                for key, msg in check_molecule(g, m, text2):
+                    v.violation(f"C02:{key}", msg, {"text": text2})
+                try:
+                    mx = g.Molecule(text2).mixture
+                    if mx is None or mx.absolute_mass is None or abs(mx.absolute_mass - 1000.0) > 1e-9:
+                        v.violation("C02:mixture-value", f"Molecule({text2!r}): mixture read as {None if mx is None else (mx.absolute_mass, mx.relative_mass)}", {"text": text2})
+                except Exception:
+                    pass
     # mixture specifiers in every float syntax
     n_mix = 0
     for txt, kind, val in ((".|.5%|", "pct", 0.5), (".|5000|", "abs", 5000.0), (".|25%|", "pct", 25.0), (".|2.|", "abs", 2.0), (".|5e2|", "abs", 500.0),
